@@ -88,11 +88,37 @@ struct Explorer {
 
     std::string show_hist(std::vector<Step> const& h) const
     {
-        std::string o;
+        // steps rendered one by one, then runs of period 1 or 2 are folded ("(a; b) x126")
+        std::vector<std::string> parts;
         for (auto const& st : h) {
-            if (!o.empty()) { o += "; "; }
-            o += sys.show(st.a);
+            std::string o = sys.show(st.a);
             if (st.partner >= 0) { o += cat(" <with state #", st.partner, ">"); }
+            parts.push_back(std::move(o));
+        }
+        std::string o;
+        std::size_t i = 0;
+        auto add      = [&](std::string const& x) {
+            if (!o.empty()) { o += "; "; }
+            o += x;
+        };
+        while (i < parts.size()) {
+            bool folded = false;
+            for (std::size_t period : {std::size_t(1), std::size_t(2)}) {
+                std::size_t reps = 1;
+                while (i + (reps + 1) * period <= parts.size()
+                       && std::equal(parts.begin() + long(i), parts.begin() + long(i + period), parts.begin() + long(i + reps * period))) {
+                    ++reps;
+                }
+                if (reps >= 4) {
+                    std::string grp;
+                    for (std::size_t k = 0; k < period; ++k) { grp += (k ? "; " : "") + parts[i + k]; }
+                    add(cat("(", grp, ") x", reps));
+                    i += reps * period;
+                    folded = true;
+                    break;
+                }
+            }
+            if (!folded) { add(parts[i++]); }
         }
         return o.empty() ? std::string("<initial>") : o;
     }
